@@ -13,6 +13,8 @@ import (
 	"sort"
 	"strings"
 	"sync"
+	"sync/atomic"
+	"time"
 )
 
 // Stats collects what one test process covered.  All methods are safe for
@@ -262,4 +264,28 @@ func Pick(q, t int) (n int) {
 	}
 
 	return q
+}
+
+// WaitProgress waits for done.  It gives up, returning false, only when the
+// progress counter has not moved for quiet: a program that is merely slow
+// (a loaded machine, the race detector) keeps completing operations, a
+// deadlocked one completes none.  A wall-clock bound on the whole program
+// would call starvation a stall.
+func WaitProgress(done <-chan struct{}, progress *atomic.Int64, quiet time.Duration) (finished bool) {
+	last := progress.Load()
+	lastMove := time.Now()
+	tick := time.NewTicker(250 * time.Millisecond)
+	defer tick.Stop()
+	for {
+		select {
+		case <-done:
+			return true
+		case <-tick.C:
+			if cur := progress.Load(); cur != last {
+				last, lastMove = cur, time.Now()
+			} else if time.Since(lastMove) > quiet {
+				return false
+			}
+		}
+	}
 }
